@@ -318,3 +318,29 @@ Example C06_replay_window_tight :
               dedup_eligible false (t_id tr) = true) /\
   snd (fst (detect false d false (line 51%nat))) = None.
 Proof. vm_compute. split; [reflexivity|]. split; [|reflexivity]. eexists. repeat split. Qed.
+
+(* the Go statement of the look-ahead measures and scans subOutput (the text from the last
+   marker on), not the whole read: pinned, so scanning `output` instead breaks this lemma *)
+Theorem C06_finished_shape_pinned :
+  Consts.det_finished_shape =
+  bs "if len(subOutput) > 40 { for _, s := range WORDS { if bytes.Contains(subOutput[40:], []byte(s)) { return output, nil } } }".
+Proof. exact finished_shape_ok. Qed.
+Print Assumptions C06_finished_shape_pinned.
+
+(* C06_fires / C06_fires_clean put NO premise on the bytes before the trigger except (for
+   _clean) "no '%'": finished-transfer words in the preceding output of the same read do not
+   prevent the transfer.  Concretely: `ls` shows "Saved Games" at offset >= 40 of the read,
+   then trz prints its line; fires_clean's premises hold and give exactly this trigger, in
+   client mode and in relay mode. *)
+Example C06_fires_after_finished_word :
+  let pre := bs "drwxr-xr-x  2 user user 4096 Jan  1 00:00 Saved Games" ++ [CR; LF] ++ bs "$ trz" ++ [CR; LF; 27; 55; 7] in
+  let id := [48; 49; 50; 51; 52; 53; 54; 55; 56; 57; 49; 50; 48] in
+  let m := {| m_mode := 82; m_ver := vtext [49] [49] [54]; m_id := Some id; m_port := Some [48] |} in
+  let txt := trig_text 82 [49] [49] [54] (Some id) (Some [48]) in
+  finished (skipn (N.to_nat Consts.det_finished_offset) pre) = true /\
+  forall relay, detect false (new_det relay false) false (pre ++ txt ++ [CR; LF]) =
+    (if relay then pre ++ txt ++ Consts.det_relay_suffix ++ [CR; LF]
+     else replace_all Consts.det_client_old Consts.det_client_new (pre ++ txt ++ [CR; LF]),
+     Some {| t_mode := 82; t_version := (1, 1, 6); t_id := id; t_win := false; t_port := 0; t_prefix := [] |},
+     set_map (new_det relay false) [(id, 0)]).
+Proof. exact fires_after_finished_word_example. Qed.
